@@ -135,61 +135,43 @@ class SubGrid(object):
         #
         # o - Node position.
 
-        # Determine position in the file of the sixteen surrounding nodes
-        pos1 = row * num_cols + col
-        pos2 = pos1 + 1
-        pos3 = pos2 + num_cols
-        pos4 = pos3 - 1
-        pos5 = pos4 - 2 * num_cols - 1
-        pos6 = pos5 + 1
-        pos7 = pos6 + 1
-        pos8 = pos7 + 1
-        pos9 = pos8 + num_cols
-        pos10 = pos9 + num_cols
-        pos11 = pos10 + num_cols
-        pos12 = pos11 - 1
-        pos13 = pos12 - 1
-        pos14 = pos13 - 1
-        pos15 = pos14 - num_cols
-        pos16 = pos15 - num_cols
+        # Row and column of the sixteen surrounding nodes
+        #   node 1: (row, col), node 2: (row, col + 1), node 3: (row + 1, col + 1), node 4: (row + 1, col)
+        num_rows = self.gs_count // num_cols
 
         # Navigate to start of subgrid
         f.seek(start_byte, 1)
-        # Navigate to start of pos1 node
-        f.seek(16 * pos5, 1)
+        first_node = f.tell()
 
-        # Read in values for nodes 5-8
-        node_5 = read_node(f)
-        node_6 = read_node(f)
-        node_7 = read_node(f)
-        node_8 = read_node(f)
+        def node(r, c):
+            """
+            Node at row r, column c of this subgrid. In the outermost ring of cells part of the
+            stencil lies one step outside the subgrid: those nodes are extrapolated quadratically
+            from the three nearest nodes of the subgrid (never read from neighbouring records).
+            """
+            if r < 0:
+                return tuple(3 * n0 - 3 * n1 + n2 for n0, n1, n2 in zip(node(0, c), node(1, c), node(2, c)))
+            if r > num_rows - 1:
+                return tuple(3 * n0 - 3 * n1 + n2 for n0, n1, n2 in zip(node(num_rows - 1, c),
+                                                                       node(num_rows - 2, c),
+                                                                       node(num_rows - 3, c)))
+            if c < 0:
+                return tuple(3 * n0 - 3 * n1 + n2 for n0, n1, n2 in zip(node(r, 0), node(r, 1), node(r, 2)))
+            if c > num_cols - 1:
+                return tuple(3 * n0 - 3 * n1 + n2 for n0, n1, n2 in zip(node(r, num_cols - 1),
+                                                                       node(r, num_cols - 2),
+                                                                       node(r, num_cols - 3)))
+            f.seek(first_node + 16 * (r * num_cols + c))
+            return read_node(f)
 
-        # Navigate to start of pos16 node
-        f.seek(16 * (pos16 - pos8 - 1), 1)
-
-        # Read in values for nodes 16, 1, 2, and 9
-        node_16 = read_node(f)
-        node_1 = read_node(f)
-        node_2 = read_node(f)
-        node_9 = read_node(f)
-
-        # Navigate to start of pos15 node
-        f.seek(16 * (pos15 - pos9 - 1), 1)
-
-        # Read in values for nodes 15, 3, 4 and 10
-        node_15 = read_node(f)
-        node_4 = read_node(f)
-        node_3 = read_node(f)
-        node_10 = read_node(f)
-
-        # Navigate to start of pos14 node
-        f.seek(16 * (pos14 - pos10 - 1), 1)
-
-        # Read in values for nodes 11, 12, 13 and 14
-        node_14 = read_node(f)
-        node_13 = read_node(f)
-        node_12 = read_node(f)
-        node_11 = read_node(f)
+        node_5, node_6, node_7, node_8 = (node(row - 1, col - 1), node(row - 1, col),
+                                          node(row - 1, col + 1), node(row - 1, col + 2))
+        node_16, node_1, node_2, node_9 = (node(row, col - 1), node(row, col),
+                                           node(row, col + 1), node(row, col + 2))
+        node_15, node_4, node_3, node_10 = (node(row + 1, col - 1), node(row + 1, col),
+                                            node(row + 1, col + 1), node(row + 1, col + 2))
+        node_14, node_13, node_12, node_11 = (node(row + 2, col - 1), node(row + 2, col),
+                                              node(row + 2, col + 1), node(row + 2, col + 2))
 
         # Determine latitude and longitude of node 1
         lat1 = self.s_lat + row * self.lat_inc
